@@ -208,8 +208,31 @@ def two_liquids(l, L, F):
     return l.sum() > PHASE_MIN * F and L.sum() > PHASE_MIN * F
 
 
-def activity_ratio(th, feed, l, L, T):
-    """max |a_l/a_L - 1| over chemicals above X_MIN in both liquids (gamma evaluated here)."""
+def trivial_split(l, L, feed):
+    """Both 'liquids' have the composition of the feed (to 1e-3): the Gibbs-energy minimisers return such a pair for
+    a feed that is really one liquid; how much goes into each is arbitrary (G does not depend on it)."""
+    feed = np.asarray(feed, float)
+    m = feed > 0
+    if not (l.sum() > 0 and L.sum() > 0):
+        return False
+    phi = l.sum() / feed.sum()
+    return bool((np.abs(l[m] / feed[m] - phi) <= 1e-3).all())
+
+
+def split_exactly_half(l, L, feed):
+    """Some chemical sits exactly half in each liquid (an optimiser bound / sampling vertex, not an optimum)."""
+    feed = np.asarray(feed, float)
+    m = feed > 0
+    return bool((np.abs(l[m] - L[m]) <= 1e-9 * feed[m]).any())
+
+
+def activity_ratio(th, feed, l, L, T, g_tol=None):
+    """Worst |a_l/a_L - 1| relative to its tolerance over chemicals above X_MIN in both liquids (gamma evaluated
+    here).  Returns (ratio, tolerance, chemical index) of the chemical with the largest ratio/tolerance.
+    Tolerance: ISO_TOL for the iterative method.  For the Gibbs-energy minimisers (g_tol = their stopping tolerance
+    on G/RT per mole of feed) a chemical whose smaller phase amount is n (mole fraction of the feed) can be off by
+    r = |ln(a_l/a_L)| while G is only dG = r**2 * n / 2 above its minimum, so the optimiser cannot resolve less than
+    sqrt(2 g_tol / n): tolerance max(ISO_TOL_GLOBAL, that)."""
     idx = [i for i, v in enumerate(feed) if v > 0]
     g = gamma_of(th, idx)
     xl = l[idx] / l[idx].sum()
@@ -219,10 +242,15 @@ def activity_ratio(th, feed, l, L, T):
         aL = xL * np.asarray(g(xL.copy(), T), float)
     ok = (xl > X_MIN) & (xL > X_MIN) & np.isfinite(al) & np.isfinite(aL) & (aL > 0)
     if not ok.any():
-        return None, None
+        return None, None, None
     r = np.abs(al[ok] / aL[ok] - 1.0)
-    k = int(np.argmax(r))
-    return float(r[k]), [idx[j] for j in np.nonzero(ok)[0]][k]
+    if g_tol is None:
+        tol = np.full(r.shape, ISO_TOL)
+    else:
+        nmin = np.minimum(l[idx], L[idx])[ok] / float(np.sum(feed))
+        tol = np.maximum(ISO_TOL_GLOBAL, np.sqrt(2.0 * g_tol / nmin))
+    k = int(np.argmax(r / tol))
+    return float(r[k]), float(tol[k]), [idx[j] for j in np.nonzero(ok)[0]][k]
 
 
 def top_clause(fails, th, names, top, l, L, region):
@@ -337,15 +365,20 @@ def _lle_fresh(ch, ctx, methods):
     # echo of the thermal condition and bookkeeping that the later clauses rely on
     fails.check(s.T == T, f'lle.echo|{region}|mismatch', lambda: f'T={s.T!r} after lle(T={T!r})')
     two = two_liquids(l, L, F)
+    trivial = two and mtag != 'pseudo' and trivial_split(l, L, feed)
+    if trivial:
+        ctx.cell('lle:two_identical_liquids')      # one liquid reported as two equal ones: nothing to compare
+        two = False
     ctx.cell('lle:two_liquids' if two else 'lle:one_liquid')
     if two:
-        r, worst = activity_ratio(th, feed, l, L, T)
+        r, tol, worst = activity_ratio(th, feed, l, L, T, None if mtag == 'pseudo' else G_TOL_GLOBAL)
         if r is not None:
             ctx.metric_max(f'lle.isoactivity:{mtag}', r)
-            tol = ISO_TOL if mtag == 'pseudo' else ISO_TOL_GLOBAL
-            fails.check(r <= tol, f'lle.isoactivity|method={mtag}|mismatch',
-                        lambda: f'{names} feed={feed.tolist()} T={T}: x*gamma differs by {r:.3g} for {names[worst]}; '
-                                f'l={l.tolist()} L={L.tolist()}')
+            ctx.metric_max(f'lle.isoactivity:{mtag}:resid/tol', r / tol)
+            half = ',half=1' if (mtag == 'de' and split_exactly_half(l, L, feed)) else ''
+            fails.check(r <= tol, f'lle.isoactivity|method={mtag}{half}|mismatch',
+                        lambda: f'{names} feed={feed.tolist()} T={T}: x*gamma differs by {r:.3g} (tol {tol:.3g}) for '
+                                f'{names[worst]}; l={l.tolist()} L={L.tolist()}')
     top_clause(fails, th, names, top, l, L, region)
     # feed scaling
     s2 = make_stream(th, kind, feed * k, spread, T, P or 101325.0)
@@ -353,6 +386,8 @@ def _lle_fresh(ch, ctx, methods):
     ordered = top is not None and feed[names.index(top)] > 0
     rtol = SCALE_RTOL if mtag == 'pseudo' else SCALE_RTOL_GLOBAL
     res = pair_resid((l * k, L * k), (l2, L2), F * k, rtol, ordered)
+    if trivial and trivial_split(l2, L2, feed * k):
+        res = 0.0                                   # the same single liquid both times
     ctx.metric_max(f'lle.scale:{mtag}:resid/tol', res)
     fails.check(res <= 1.0, f'lle.scale|method={mtag}|mismatch',
                 lambda: f'{names} feed={feed.tolist()} T={T} k={k}: scaled l={l2.tolist()} L={L2.tolist()} '
@@ -367,6 +402,7 @@ def _lle_fresh(ch, ctx, methods):
 # shgo / differential evolution minimise G with f_tol = tol = 1e-6: observed |a_l/a_L - 1| median 5e-5, 90 % below
 # 5e-4, differential evolution up to 3.4e-2; shgo has a separate tail of unpolished sampling points (C15-F9)
 ISO_TOL_GLOBAL = 5e-2
+G_TOL_GLOBAL = 1e-6      # LLE.shgo_options f_tol / differential_evolution_options tol
 SCALE_RTOL_GLOBAL = 1e-2
 
 
@@ -607,13 +643,16 @@ def prop_lle_global_history(ch, ctx):
     fails = Failures(ctx)
     ordered = top is not None
     desc = lambda: f'{names} method={method} earlier call feed={hfeed.tolist()} T={hT} top={htop}; final feed={feed.tolist()} T={T} top={top}'
-    r1 = pair_resid(rs, rc, F, GLOBAL_HIST_RTOL, ordered)
+    triv = {id(r): trivial_split(r[0], r[1], feed) for r in (rs, rc, rf)}
+    if any(triv.values()):
+        ctx.cell('lle.ghist:two_identical_liquids')
+    r1 = 0.0 if (triv[id(rs)] and triv[id(rc)]) else pair_resid(rs, rc, F, GLOBAL_HIST_RTOL, ordered)
     ctx.metric_max(f'lle.cache:resid/tol:{mtag}', r1)
     fails.check(r1 <= 1.0, f'lle.cache|{reg}|mismatch',
                 lambda: f'use_cache=True l={rs[0].tolist()} L={rs[1].tolist()} but use_cache=False l={rc[0].tolist()} '
                         f'L={rc[1].tolist()}; {desc()}')
     for tag, r in (('cache=0', rc), ('cache=1', rs)):
-        rr = pair_resid(r, rf, F, GLOBAL_HIST_RTOL, ordered)
+        rr = 0.0 if (triv[id(r)] and triv[id(rf)]) else pair_resid(r, rf, F, GLOBAL_HIST_RTOL, ordered)
         ctx.metric_max(f'lle.history:resid/tol:{mtag},{tag}', rr)
         fails.check(rr <= 1.0, f'lle.history|{tag},{reg}|mismatch',
                     lambda: f'after history l={r[0].tolist()} L={r[1].tolist()}, history-free l={rf[0].tolist()} '
